@@ -347,6 +347,10 @@ func judgeTaint(c *Ctx, t *taint, what string, minSites int) {
 			if extOK(e) {
 				continue
 			}
+			if why := extWrites(e); why != "" {
+				c.bad(key(e.instr, "write into "+what), e.instr.Pos(), "a reference into %s is handed to %s, which %s: the shared object is modified in place (with a reused builder / a tree compiled twice, the second use sees the modified order or content)", what, e.callee, why)
+				continue
+			}
 			c.unres(key(e.instr, "reference into "+what+" leaves the library"), e.instr.Pos(), "%s (%s)", e.what, e.callee)
 		}
 	}
@@ -372,6 +376,33 @@ func extOK(e taintEvent) bool {
 		return true
 	}
 	return false
+}
+
+// extWrites: standard-library callees known to modify their (first) slice/map argument in place.
+func extWrites(e taintEvent) string {
+	ci, ok := e.instr.(ssa.CallInstruction)
+	if !ok {
+		return ""
+	}
+	cal := ci.Common().StaticCallee()
+	if cal == nil {
+		return ""
+	}
+	for _, w := range [][3]string{
+		{"slices", "Reverse", "reverses the slice in place"}, {"slices", "Sort", "sorts the slice in place"}, {"slices", "SortFunc", "sorts the slice in place"},
+		{"slices", "SortStableFunc", "sorts the slice in place"}, {"slices", "Delete", "shifts the slice's elements in place"}, {"slices", "DeleteFunc", "shifts the slice's elements in place"},
+		{"slices", "Insert", "can write into the slice's backing array"}, {"slices", "Compact", "rewrites the slice in place"}, {"slices", "CompactFunc", "rewrites the slice in place"},
+		{"slices", "Replace", "rewrites the slice in place"}, {"sort", "Slice", "sorts the slice in place"}, {"sort", "SliceStable", "sorts the slice in place"},
+		{"sort", "Strings", "sorts the slice in place"}, {"sort", "Ints", "sorts the slice in place"}, {"maps", "DeleteFunc", "deletes entries of the map"},
+	} {
+		if extFuncIs(cal, w[0], w[1]) && e.argIdx == 0 {
+			return w[2]
+		}
+	}
+	if extFuncIs(cal, "maps", "Copy") && e.argIdx == 0 {
+		return "writes the destination map"
+	}
+	return ""
 }
 
 // nodeTypes: named types of package ast with a WriteTo(*CodeWriter) method (the tree), by role.
